@@ -150,10 +150,15 @@ def main(chk, pid, tier, seed, replay):
                                    "what": f"configuration [{label}]: keys / signatures of ML-DSA-{s} on the rare-event corpus (seeds with extreme RejNTTPoly / RejBoundedPoly streams, signatures with long SampleInBall re-draw runs or late loop iterations, crafted verification vectors, signatures of a crafted extreme-t0 private key) give digest {rr}, the reference model gives {ref.get((s, 'rare'))}"})
             if "dudect" in feat:
                 dd = got.get((s, "dudect"))
-                if s in dud_ref and dud_ref[s] != dd:
+                if dd == "panic":
+                    # the test-mode entry point panicked in this (debug-assertions) build for this RNG value: that is
+                    # C13's known finding F6, not a difference between configurations
+                    classes["dudect entry point panicked (judged by C13)"] = classes.get("dudect entry point panicked (judged by C13)", 0) + 1
+                elif s in dud_ref and dud_ref[s] != dd:
                     violations.append({"sub": "feature_matrix", "key": f"dudect_digest_differs:set{s}", "case": case,
                                        "what": f"configuration [{label}]: dudect_keygen_sign_with_rng output differs between configurations"})
-                dud_ref.setdefault(s, dd)
+                if dd != "panic":
+                    dud_ref.setdefault(s, dd)
             if "default-rng" in feat and got.get((s, "osrng")) != "true":
                 violations.append({"sub": "feature_matrix", "key": f"osrng_roundtrip_fails:set{s}", "case": case,
                                    "what": f"configuration [{label}]: try_keygen/try_sign/verify round trip failed"})
